@@ -4,6 +4,7 @@
 -/
 import KiraModel.Exec.SuiteUnits
 import KiraModel.Exec.SuiteParam
+import KiraModel.Exec.SuiteFxB
 
 open K.Exec
 
@@ -20,6 +21,7 @@ def suiteOf (name : String) : Option Suite :=
   match name with
   | "units" => some (statelessSuite unitsStep)
   | "param" => some { σ := ParamState, init := {}, step := paramStep }
+  | "fxb" => some { σ := FxbState, init := {}, step := fxbStep }
   | _ => none
 
 def tokens (line : String) : List String :=
